@@ -38,6 +38,7 @@ THEOREMS = [
     "OQuPyVerif.Props.C17.compute_caps_keeps_flag",
     "OQuPyVerif.Props.C17.entry_points_no_clobber",
     "OQuPyVerif.Props.C17.flag_tests_unconditional",
+    "OQuPyVerif.Props.C17.pttempo_remove_entitlement",
 ]
 
 VLEN = ["initial_tensor_data", "initial_tensor_shape", "mpo_tensors_data", "mpo_tensors_shape",
@@ -289,6 +290,10 @@ def tensor_of(spec):
             ).reshape(spec["shape"])
 
 
+# time steps: round ones, ones no short decimal represents, very small (SI units) and large ones
+DT_VALUES = [0.1, 0.25, 0.04, 1.0 / 3.0, math.pi / 40, 0.1 / 3, 2.5e-15, 1e-9 * math.sqrt(2.0), 7.3]
+
+
 def gen_pt_spec(rng, length=None, rank=None, max_bond=4, dim=2, with_dt=None, with_tr=None,
                 named=None, caps="computed", square=False):
     """hand-built PT: random small dyadic entries (exact in binary64).
@@ -316,7 +321,7 @@ def gen_pt_spec(rng, length=None, rank=None, max_bond=4, dim=2, with_dt=None, wi
         mpos.append(tensor_spec(_rand_arr(rng, shape)))
     with_dt = rng.random() < 0.6 if with_dt is None else with_dt
     named = rng.random() < 0.5 if named is None else named
-    spec = {"hs": dim, "dt": rng.choice([0.1, 0.25, 0.04]) if with_dt else None,
+    spec = {"hs": dim, "dt": rng.choice(DT_VALUES) if with_dt else None,
             "tin": tin, "tout": tout,
             "name": rng.choice(["pt A", "spin-boson", "x"]) if named else None,
             "descr": rng.choice(["made by the harness", "δ test", "line one"]) if named else None,
@@ -439,6 +444,76 @@ def observe_entry(entry, ovw, prior):
         return raised, before != after
     finally:
         shutil.rmtree(d, ignore_errors=True)
+
+
+REMOVE_CASES = [("named-new", False, True, "missing"), ("named-new", True, True, "missing"),
+                ("named-existing", True, True, "pt"), ("temporary", False, False, "missing")]
+
+
+def observe_entry_remove(entry, ovw, named, prior):
+    """create through `entry`, then call remove() on the object obtained:
+    'deleted' / 'refused' (FileExistsError, file still there) / other"""
+    import oqupy
+    from . import oq
+    d = tempfile.mkdtemp(prefix="c17rm_")
+    path = os.path.join(d, "p.hdf5")
+    try:
+        make_prior(prior, path)
+        with warnings.catch_warnings():
+            warnings.simplefilter("ignore")
+            try:
+                if entry == "fpt":
+                    obj = oqupy.FileProcessTensor(mode="overwrite" if ovw else "write",
+                                                  filename=path if named else None,
+                                                  hilbert_space_dimension=2)
+                elif entry == "PtTempo":
+                    obj = oqupy.PtTempo(bath=oq.cheap_bath(), start_time=0.0, end_time=0.25,
+                                        parameters=oq.cheap_params(0.1),
+                                        process_tensor_file=path if named else True,
+                                        overwrite=ovw)._process_tensor
+                else:
+                    obj = oqupy.pt_tempo_compute(bath=oq.cheap_bath(), start_time=0.0, end_time=0.25,
+                                                 parameters=oq.cheap_params(0.1),
+                                                 process_tensor_file=path if named else True,
+                                                 overwrite=ovw, progress_type="silent")
+            except Exception as e:      # noqa
+                return "ctor-raises-" + type(e).__name__
+            real = obj.filename
+            try:
+                obj.remove()
+                out = "deleted" if not os.path.exists(real) else "kept"
+            except FileExistsError:
+                out = "refused" if os.path.exists(real) else "refused-but-deleted"
+            except Exception as e:      # noqa
+                out = "error-" + type(e).__name__
+            try:
+                obj._f.close()
+            except Exception:
+                pass
+            if os.path.exists(real) and real != path:
+                os.remove(real)
+        return out
+    finally:
+        shutil.rmtree(d, ignore_errors=True)
+
+
+def remove_cases():
+    for entry in ("fpt", "PtTempo", "pt_tempo_compute"):
+        for case, ovw, named, prior in REMOVE_CASES:
+            yield entry, case, ovw, named, prior
+
+
+def judge_entry_remove(entry, case, ovw, named, got):
+    """a named file is deleted by remove() only if overwriting it was asked for; a temporary
+    file the object created itself may be deleted"""
+    want = "deleted" if (not named or ovw) else "refused"
+    if got != want:
+        return [("remove-entitlement:%s:%s:overwrite=%s" % (entry, case, ovw),
+                 {"entry_point": entry, "file": case, "overwrite": ovw, "remove": got,
+                  "expected": want,
+                  "how": "create through %s (%s file, overwrite=%s), then .remove() on the process "
+                         "tensor obtained" % (entry, case.replace("-", " "), ovw)})]
+    return []
 
 
 def entry_cases():
@@ -1048,10 +1123,22 @@ def correspondence(res, tier, rng):
             exp = ("raises-" if raised else "ok-") + ("created" if changed else "unchanged")
         kind = {"fpt": "fpt", "export": "export"}.get(entry, "pttempo")
         disk = {"missing": "missing", "unreadable": "unreadable"}.get(prior, "empty")
-        add("entry kind=%s ovw=%d disk=%s" % (kind, int(ovw), disk),
-            (lambda got, exp=exp: got == exp, exp), "entry:%s:%s:%s" % (entry, ovw, prior))
+        add("entry kind=%s ovw=%d disk=%s hasfn=1" % (kind, int(ovw), disk),
+            (lambda got, exp=exp: got.split(" remove=")[0] == exp, exp),
+            "entry:%s:%s:%s" % (entry, ovw, prior))
         res.count("entry-case")
     correspondence.entry_obs = entry_obs
+    remove_obs = []
+    for entry, case, ovw, named, prior in remove_cases():
+        got = observe_entry_remove(entry, ovw, named, prior)
+        remove_obs.append((entry, case, ovw, named, got))
+        kind = "fpt" if entry == "fpt" else "pttempo"
+        disk = "missing" if prior == "missing" else "empty"
+        add("entry kind=%s ovw=%d disk=%s hasfn=%d" % (kind, int(ovw), disk, int(named)),
+            (lambda got_m, g=got: got_m.endswith(" remove=" + g), got),
+            "entry-remove:%s:%s:%s" % (entry, case, ovw))
+        res.count("entry-remove-case")
+    correspondence.remove_obs = remove_obs
     # (e) PtTempo's choice
     for arg, truthy, is_text in ((None, 0, 0), (False, 0, 0), (True, 1, 0), ("<path>", 1, 1)):
         obs = observe_choice(arg)
@@ -1313,6 +1400,11 @@ def search(res, results=None, rng=None):
         (e, o, p) + observe_entry(e, o, p) for e, o, p in entry_cases()]
     for entry, ovw, prior, raised, changed in obs:
         for key, payload in judge_entry(entry, ovw, prior, raised, changed):
+            res.fail(key, payload)
+    robs = getattr(correspondence, "remove_obs", None) or [
+        (e, c, o, n, observe_entry_remove(e, o, n, p)) for e, c, o, n, p in remove_cases()]
+    for entry, case, ovw, named, got in robs:
+        for key, payload in judge_entry_remove(entry, case, ovw, named, got):
             res.fail(key, payload)
     # modes: creating never overwrites unless asked; remove() refused when not entitled
     for (mode, prior) in (("write", "pt"), ("write", "ptopen"), ("write", "unreadable"),
